@@ -291,8 +291,8 @@ impl Check for C18 {
     }
     fn cases(&self, tier: Tier) -> u64 {
         match tier {
-            Tier::Quick => 6_000,
-            Tier::Thorough => 150_000,
+            Tier::Quick => 30_000,
+            Tier::Thorough => 800_000,
         }
     }
     fn tape_len(&self, _t: Tier) -> usize {
